@@ -88,3 +88,20 @@ Definition class_flat (tabs : list (pystr * impexp_class)) (c : pystr) : bool :=
   has_key c tabs
   && nodup_keys (class_table tabs c)
   && forallb (fun p => str_in (fst p) (map fst (class_special tabs c)) || flat_ty (snd p)) (class_table tabs c).
+
+(* ---- attribute census (Model.ImpExp.chk_census): classes whose instances are pure state - every attribute a live
+   instance carries must be exported - and the attributes that are knowingly not (each justified in the driver's
+   ASSUMPTIONS): Grant.id is read only by the call that creates the grant (it becomes the last part of the branch key the
+   grant is filed under, which IS exported); remember_token / remove_inactive_token are per-grant copies of the session
+   manager's configuration, never changed after creation. *)
+Definition census_closed : list pystr := session_classes ++ [c_DLDict].
+Definition census_transient : list (pystr * pystr) :=
+  [(c_Grant, PS "id"); (c_Grant, PS "remember_token"); (c_Grant, PS "remove_inactive_token");
+   (c_ExchangeGrant, PS "id"); (c_ExchangeGrant, PS "remember_token"); (c_ExchangeGrant, PS "remove_inactive_token")].
+
+(* what the SessionManager constructor takes from conf["session_params"] (session/manager.py __init__, endpoint_context.py
+   set_remember_token): the subject minters, the clean-up switches, the node classes.  None of them is in the class's
+   `parameter` table; EndpointContext.load builds the session manager anew (recorded finding
+   restore-drops-session-manager-config; Props C13_restore_session_manager_config_refuted). *)
+Definition session_manager_config_attrs : list pystr :=
+  [PS "sub_func"; PS "remove_inactive_token"; PS "remember_token"; PS "node_type"; PS "node_info_class"].
